@@ -824,6 +824,15 @@ class Blockwise(ArrayExpr):
                         arg_slices.append(slice(None))  # Contracted dimension
 
                 sliced_arg = new_collection(arg)[tuple(arg_slices)]
+                for dim_idx, in_ind in enumerate(arg_ind):
+                    br = block_ranges[out_ind.index(in_ind)] if in_ind in out_ind else None
+                    if br is not None and arg_slices[dim_idx] != slice(None):
+                        if len(sliced_arg.chunks[dim_idx]) != br[1] - br[0] + 1:
+                            # the cut kept blocks it was not asked for (a
+                            # slice that covers the whole axis keeps the empty
+                            # blocks on it): the per-block adjust_chunks below
+                            # would not line up with them
+                            return None
                 new_args.extend([sliced_arg.expr, arg_ind])
 
         # Slice adjust_chunks tuples/lists to match the new block ranges
